@@ -17,6 +17,54 @@ REPO = Path(os.environ.get("Y0_REPO", "/repo"))
 PY = "/venv/bin/python"
 NPROC = int(os.environ.get("VERIF_JOBS", "16"))
 
+# ---------------------------------------------------------------- has the modelled source changed since the model was reconciled with it?
+
+FINGERPRINTS = VERIF / "tools" / "source_fingerprints.json"
+DSL_PROPS = {"C10", "C11", "C12", "C13"}
+GRAPH_PROPS = {"C04", "C14", "C15", "C16", "C20"}
+NOT_DSL = ("graph.py", "algorithm/", "struct.py", "examples.py", "resources.py", "identify.py", "hierarchical.py")
+NOT_GRAPH = ("algorithm/identify/", "algorithm/transport.py", "algorithm/counterfactual_transport/", "parser/", "mutate/",
+             "algorithm/tian_id.py", "algorithm/ioscm/")
+
+
+def _ast_fingerprint(path: Path) -> str:
+    """Hash of the syntax tree without docstrings: comments, layout and documentation do not count as a change."""
+    import ast
+    import hashlib
+
+    try:
+        tree = ast.parse(path.read_text())
+    except Exception:  # noqa: BLE001
+        return "unparsable"
+    for node in ast.walk(tree):
+        body = getattr(node, "body", None)
+        if isinstance(node, (ast.Module, ast.FunctionDef, ast.AsyncFunctionDef, ast.ClassDef)) and body and isinstance(body[0], ast.Expr) \
+                and isinstance(getattr(body[0], "value", None), ast.Constant) and isinstance(body[0].value.value, str):
+            node.body = body[1:] or [ast.Pass()]
+    return hashlib.sha1(ast.dump(tree).encode()).hexdigest()
+
+
+def source_fingerprints() -> dict:
+    root = REPO / "src" / "y0"
+    return {str(f.relative_to(root)): _ast_fingerprint(f) for f in sorted(root.rglob("*.py"))}
+
+
+def changed_sources(pid: str) -> list:
+    """Files of y0 whose code differs from the tree the model was last reconciled with (tools/source_fingerprints.json) and that the
+    property [pid] can depend on. A change is NOT a violation: it only makes the quick check explore as much as the thorough one."""
+    try:
+        recorded = json.loads(FINGERPRINTS.read_text())
+    except Exception:  # noqa: BLE001
+        return []
+    now = source_fingerprints()
+    changed = sorted(f for f in set(recorded) | set(now) if recorded.get(f) != now.get(f))
+    if pid in DSL_PROPS:
+        changed = [f for f in changed if not f.startswith(NOT_DSL)]
+    elif pid in GRAPH_PROPS:
+        changed = [f for f in changed if not f.startswith(NOT_GRAPH)]
+    return changed
+
+
 # ---------------------------------------------------------------- Gallina serialisation
 
 
